@@ -72,6 +72,7 @@ def explore_generic(ctx, spec, budget, rule, exhaustive=False, chunk=200000):
                         res['disagreements'].append({
                             'op': reqs[i].split(' ', 1)[0],
                             'case': spec.sample(batch[i]),
+                            'request': reqs[i] if len(reqs[i]) < 200000 else reqs[i][:200000],
                             'implementation': impls[i][:2000],
                             'model': m[:2000]})
                     dist['disagreement'] = dist.get('disagreement', 0) + 1
